@@ -86,7 +86,7 @@ def corpus_scripts(fams, feats):
     out = []
     for fam in fams:
         for p in sorted(glob.glob(os.path.join(VERIF, "corpus", fam, "*.scn"))):
-            head = open(p).readline()
+            head = next((l for l in open(p) if l.startswith("feat")), "")
             want = set(k for k in gen.FEATS if ("%s=1" % k) in head)
             if want == set(feats):
                 out.append(p)
